@@ -12,7 +12,7 @@ def _self_ty(s):
         return "Rational"
     if s.startswith("num::rational::Ratio") or s.startswith("num_rational::Ratio"):
         return "Ratio"
-    if s.startswith("num::BigInt") or s.startswith("num_bigint::BigInt"):
+    if s.startswith("num::BigInt") or s.startswith("num_bigint::BigInt") or s.startswith("num::BigUint") or s.startswith("num_bigint::BigUint"):
         return "BigInt"
     return None
 
@@ -34,7 +34,8 @@ def classify(name):
             return ty, m.group("m"), m.group("trait").split("<")[0]
         return None
     for pre, ty in (("rational::Rational::", "Rational"), ("num::rational::Ratio::<T>::", "Ratio"),
-                    ("num::rational::Ratio::<num::BigInt>::", "Ratio"), ("num::BigInt::", "BigInt")):
+                    ("num::rational::Ratio::<num::BigInt>::", "Ratio"), ("num::BigInt::", "BigInt"), ("num_bigint::BigInt::", "BigInt"),
+                    ("num::BigUint::", "BigInt"), ("num_bigint::BigUint::", "BigInt")):
         if name.startswith(pre) and "::" not in name[len(pre):]:
             return ty, name[len(pre):], ""
     if name.startswith("num::ToPrimitive::") or name.startswith("num::FromPrimitive::"):
